@@ -79,6 +79,9 @@ class World:
         """Server-side resources still held.  To be called at quiescence."""
         out = []
         for t in self.net.transports:
+            if (t.side == "accept" and t.state == simnet.CLOSING and t.conn.client.state == simnet.OPEN
+                    and t.out.sendbuf and t.conn.client.held_bytes):
+                continue  # given up by the server; the rest is TCP's business: the peer is alive but not reading
             if t.side == "accept" and t.state != simnet.CLOSED:
                 out.append(f"server-side transport c{t.conn.id} (port {t.conn.port}) still {t.state}")
             elif t.side == "accept" and t.closed_by_gc:
